@@ -128,7 +128,7 @@ func metricNonEmpty(impl Sexp) (series int, points int) {
 
 func init() {
 	props["C09"] = func(c *Ctx) {
-		c.Res.Rule = "case = 0-20 records on a 1-second lattice (equal timestamps, samples exactly on window edges, several series, unwrap values incl. unparsable ones) x range function (count, rate, bytes, bytes_rate; sum/avg/min/max/stdvar/stddev/quantile/first/last over unwrapped values with bytes/duration conversion and post-filters, optional grouping) x range in {1,2,5,10}s x offset in {0,1,2,5}s x grid (instant, or start/end/step with step <, =, > range); an eighth of the cases: a dense series of unordered unwrapped values under overlapping windows (range 3-10 s, step 1 s); value compared as exact rational vs float64 within 1e-9; plus a relational check: the value at a time T is the same on two different grids containing T and as an instant query at T; non-trivial = non-empty result; distinct by request line"
+		c.Res.Rule = "case = 0-20 records on a 1-second lattice (equal timestamps, samples exactly on window edges, several series, unwrap values incl. unparsable ones) x range function (count, rate, bytes, bytes_rate; sum/avg/min/max/stdvar/stddev/quantile/first/last over unwrapped values with bytes/duration conversion and post-filters, optional grouping) x range in {1,2,5,10}s x offset in {0,1,2,5}s x grid (instant, or start/end/step with step <, =, > range); an eighth of the cases: a dense series of unordered unwrapped values, made ONE series by `without (v)` (the unwrapped label stays a label otherwise), under overlapping windows (range 3-10 s, step 1 s), a third of them quantile_over_time; value compared as exact rational vs float64 within 1e-9; plus a relational check: the value at a time T is the same on two different grids containing T and as an instant query at T; non-trivial = non-empty result; distinct by request line"
 		gen := func(r *rand.Rand) MetricCase {
 			t := MetricCase{E: *genRangeExpr(r, false), Recs: genMRecs(r, r.Intn(21)), Repeat: 2}
 			genParams(r, &t)
@@ -138,10 +138,20 @@ func init() {
 				// the window it was given (sorting it, say) meets the next step
 				e := genRangeExpr(r, true)
 				e.Op, e.Unwrap, e.Sel, e.OffsetS = pick(r, mRangeOpsUnwrap), &MUnwrap{Label: "v"}, nil, 0
-				e.RangeS = pick(r, []int64{3, 5, 10})
-				if e.Op == "quantile_over_time" {
-					e.Param = pick(r, []string{"0.5", "0.25", "0.9"})
+				if r.Intn(3) == 0 {
+					e.Op = "quantile_over_time" // the one operation that reorders the window it is given
 				}
+				for !mGroupableRange[e.Op] {
+					e.Op = pick(r, mRangeOpsUnwrap) // sum_over_time and rate take no grouping clause
+				}
+				e.RangeS = pick(r, []int64{3, 5, 10})
+				e.Param = ""
+				if e.Op == "quantile_over_time" {
+					e.Param = pick(r, []string{"0.5", "0.25", "0.9", "1", "0"})
+				}
+				// the unwrapped label stays a label: without this clause every value would be a series of its own
+				// and no window would hold two samples
+				e.Group = &MGroup{Without: true, Labels: []string{"v"}}
 				t.E = *e
 				n := 6 + r.Intn(8)
 				t.Recs = make([]LRec, n)
